@@ -73,6 +73,21 @@ def run_ess(case):
             if not math.isfinite(ec) or abs(F(ec) - ref_c) > ref_c * F(1, 10 ** 9):
                 res.violate("ess:scale", f"ESS({c}*w) = {ec!r} but exact {float(ref_c)!r} (w={list(w)})", dict(cc, c=c))
                 break
+        if N <= 3:
+            # the caller's numpy error state may only change how floating-point events are REPORTED, never the value
+            from mc import forms as fm
+            for sname, (kind, val) in fm.under_errstates(lambda: (float(effective_sample_size(wa.copy())), float(compute_ess(np.log(wa))) if np.all(wa > 0) else None)):
+                res.evals += 1
+                if kind == "raised":
+                    res.bump("errstate_raises")
+                    continue
+                ce0 = None
+                if np.all(wa > 0):
+                    with np.errstate(all="ignore"):
+                        ce0 = float(compute_ess(np.log(wa)))
+                if not fm.same(val[0], e, rtol=1e-12) or (val[1] is not None and not fm.same(val[1], ce0, rtol=1e-12)):
+                    res.violate("ess:errstate", f"with numpy error state {sname} in force effective_sample_size/compute_ess({list(w)}) = {val}, under the default state {e!r}/{ce0!r}", dict(cc, errstate=sname))
+                    break
         if N > 1:
             with np.errstate(all="ignore"):
                 er = float(effective_sample_size(wa[::-1].copy()))
@@ -439,6 +454,15 @@ def run_forms(case):
         res.evals += 1
         if fn == "ess" and abs(F(ref[0]) - ess_exact(w)) > ess_exact(w) * F(1, 10 ** 9):
             res.violate("forms:ess:value", f"effective_sample_size({list(w)}) = {ref[0]!r}", cc0)
+        if not only_form or str(only_form).startswith("errstate:"):
+            for sname, (okind, val) in fm.under_errstates(lambda: call(w, "f64")):
+                res.evals += 1
+                if okind == "raised":
+                    res.bump("errstate_raises")
+                elif len(val) != len(ref) or any(not fm.same(g, r, rtol=1e-12, atol=1e-15) for g, r in zip(val, ref)):
+                    res.violate(f"forms:{fn}:errstate", f"{fn}({list(w)}) = {[np.asarray(g).tolist() for g in val]} with numpy error state {sname} in force, {[np.asarray(r).tolist() for r in ref]} under the default state",
+                                dict(cc0, form="errstate:" + sname))
+                    break
         for kind in FORMS_W[fn]:
             if only_form and kind != only_form:
                 continue
